@@ -36,6 +36,10 @@ pub struct WorldOpts {
     pub witness_lock: bool,
     /// primary issuance per epoch (default EPOCH_REWARD, which divides evenly by the 4-block epoch)
     pub primary_epoch_reward: Option<u64>,
+    /// genesis shaped like a production chain's: transaction 0 creates four cells (always-success
+    /// code, a second code cell, two data cells), transaction 1 two dep-group cells over them -
+    /// the layout `setup_system_cell_cache` expects.  All of them unspendable.
+    pub system_cells: bool,
 }
 
 impl Default for WorldOpts {
@@ -51,6 +55,7 @@ impl Default for WorldOpts {
             genesis_compact_target: DIFF_TWO,
             witness_lock: false,
             primary_epoch_reward: None,
+            system_cells: false,
         }
     }
 }
@@ -99,9 +104,53 @@ pub fn witness_lock_cells(consensus: &Consensus) -> ((OutPoint, u64), (OutPoint,
 }
 
 pub fn genesis_block_ext(compact_target: u32, witness_lock: bool) -> BlockView {
-    let tx0 = create_always_success_tx();
+    genesis_block_full(compact_target, witness_lock, false)
+}
+
+/// a lock nobody can unlock (no cell holds code with this hash)
+pub fn unspendable_lock() -> packed::Script {
+    packed::Script::new_builder().code_hash(packed::Byte32::new([0xEE; 32])).hash_type(ckb_types::core::ScriptHashType::Data).build()
+}
+
+pub fn genesis_block_full(compact_target: u32, witness_lock: bool, system_cells: bool) -> BlockView {
     let lock = always_success_lock();
-    let mut txs: Vec<TransactionView> = vec![tx0];
+    let mut txs: Vec<TransactionView> = if system_cells {
+        let (as_cell, as_data, _) = always_success_cell();
+        let dead = unspendable_lock();
+        let cell = |data: &Bytes| CellOutput::new_builder().lock(dead.clone()).build_exact_capacity(Capacity::bytes(data.len()).unwrap()).unwrap();
+        let code2 = Bytes::from([as_data.as_ref(), &[0u8; 8][..]].concat());
+        let d2 = Bytes::from(vec![0xD2u8; 40]);
+        let d3 = Bytes::from(vec![0xD3u8; 64]);
+        let tx0 = TransactionBuilder::default()
+            .input(CellInput::new(OutPoint::null(), 0))
+            .witness(always_success_lock().into_witness())
+            .output(as_cell.clone())
+            .output_data(as_data.clone())
+            .output(cell(&code2))
+            .output_data(code2)
+            .output(cell(&d2))
+            .output_data(d2)
+            .output(cell(&d3))
+            .output_data(d3)
+            .build();
+        let group = |idx: &[u32]| -> Bytes {
+            let v: Vec<OutPoint> = idx.iter().map(|i| OutPoint::new(tx0.hash(), *i)).collect();
+            let ov: packed::OutPointVec = v.pack();
+            ov.as_bytes()
+        };
+        let g0 = group(&[1, 3]);
+        let g1 = group(&[1, 2, 3]);
+        let tx1 = TransactionBuilder::default()
+            .input(CellInput::new(OutPoint::null(), 0))
+            .output(cell(&g0))
+            .output_data(g0)
+            .output(cell(&g1))
+            .output_data(g1)
+            .build();
+        vec![tx0, tx1]
+    } else {
+        vec![create_always_success_tx()]
+    };
     for i in 0..GENESIS_CELLS as u64 {
         let data = Bytes::from(i.to_le_bytes().to_vec());
         txs.push(
@@ -144,7 +193,7 @@ pub fn genesis_block_ext(compact_target: u32, witness_lock: bool) -> BlockView {
 }
 
 pub fn consensus(opts: &WorldOpts) -> Consensus {
-    let genesis = genesis_block_ext(opts.genesis_compact_target, opts.witness_lock);
+    let genesis = genesis_block_full(opts.genesis_compact_target, opts.witness_lock, opts.system_cells);
     let epoch_ext = build_genesis_epoch_ext(
         Capacity::shannons(opts.primary_epoch_reward.unwrap_or(EPOCH_REWARD)),
         opts.genesis_compact_target,
@@ -180,6 +229,7 @@ pub fn genesis_cells(consensus: &Consensus) -> Vec<(OutPoint, u64)> {
         .transactions()
         .iter()
         .skip(1)
+        .filter(|tx| tx.outputs().get(0).map(|o| o.lock().as_slice() == always_success_lock().as_slice()).unwrap_or(false))
         .map(|tx| {
             let cap: u64 = tx.outputs().get(0).unwrap().capacity().unpack();
             (OutPoint::new(tx.hash(), 0), cap)
